@@ -52,7 +52,9 @@ case when starts_with(columns.data_type, 'DECIMAL') or columns.data_type='BIGINT
      when columns.data_type='TIMESTAMP WITH TIME ZONE' then 'TIMESTAMP_TZ'
      when columns.data_type='JSON' then 'VARIANT'
      else columns.data_type end as data_type,
-ext_character_maximum_length as character_maximum_length, ext_character_octet_length as character_octet_length,
+-- text lengths recorded for a column only describe it while it is a text column (the name may have been re-used)
+case when columns.data_type='VARCHAR' then ext_character_maximum_length end as character_maximum_length,
+case when columns.data_type='VARCHAR' then ext_character_octet_length end as character_octet_length,
 case when columns.data_type='BIGINT' then 38
      when columns.data_type='DOUBLE' then NULL
     else columns.numeric_precision end as numeric_precision,
